@@ -135,7 +135,15 @@ impl OneHopPathView {
     /// interface is still 0, meaning the path is incomplete).
     #[inline]
     pub fn try_reverse(&mut self) -> Result<(), PathReverseError> {
-        if self.hop_fields()[1].cons_ingress() == 0 {
+        // The hop field filled in by the second AS is the second one in construction direction:
+        // second position in construction direction, first position once the path was reversed
+        // (so that a reversed path can be reversed again).
+        let second_idx = if self.info_field().flags().contains(InfoFieldFlags::CONS_DIR) {
+            1
+        } else {
+            0
+        };
+        if self.hop_fields()[second_idx].cons_ingress() == 0 {
             return Err(PathReverseError::new(
                 "Cannot reverse a one-hop path whose second hop has not been set yet",
             ));
